@@ -375,6 +375,42 @@ def running_predicate(rep, ut):
     return 1
 
 
+def tls_identity(rep, ut):
+    """SELF_DIRECT and 'the right thread' rest on tpt_get_current(): the OS thread's TLS slot names the pool thread it
+    serves.  Every function that stores a pool thread in the slot clears it on every path to its exit (an OS thread that
+    has left the pool must not keep the identity), and tpt_get_current reads that same key."""
+    n = 0
+    keys = set()
+    for fn in ut.function_list:
+        if not fn.has_cfg or not fn.file.startswith(core.REPO + "/"):
+            continue
+        sets, clears = [], []
+        for pos, root, c, ps in fn.calls({"pthread_setspecific"}):
+            if len(c["args"]) != 2:
+                continue
+            v = core.strip_casts(c["args"][1])
+            keys.add(key(core.strip_casts(c["args"][0])))
+            (clears if const_val(v) == 0 else sets).append((pos, c))
+        for pos, c in sets:
+            n += 1
+            rep.functions.add(fn.name)
+            kk = key(core.strip_casts(c["args"][0]))
+            desc = "the thread identity stored in TLS slot %s (line %s) is cleared on every path to the exit of %s" % (kk, c.get("ln"), fn.name)
+            ok = [cp for cp, cc in clears if key(core.strip_casts(cc["args"][0])) == kk and fn.pos_postdominates(cp, pos)]
+            if ok:
+                rep.proved("R-PAIR", fn, "tls-identity:" + kk, desc, "cleared at line %s, which post-dominates the store" % [
+                    cc.get("ln") for cp, cc in clears if cp == ok[0]][0], c.get("ln"))
+            else:
+                rep.violated("R-PAIR", fn, "tls-identity:" + kk, desc, "no pthread_setspecific(%s, NULL) post-dominates the store: after leaving the pool the OS "
+                             "thread still answers tpt_get_current() with the pool thread and its self-addressed sends run directly" % kk, c.get("ln"))
+    g = ut.fn("tpt_get_current")
+    if g is not None and g.has_cfg:
+        got = {key(core.strip_casts(c["args"][0])) for _, _, c, _ in g.calls({"pthread_getspecific"})}
+        desc = "tpt_get_current reads the TLS key the thread procedure stores"
+        (rep.proved if got and got <= keys else rep.violated)("R-PAIR", g, "tls-key", desc, "%s / %s" % (sorted(got), sorted(keys)))
+    return n
+
+
 def run(rep, tier):
     us = tp.units((tp.MSG_C, tp.TP_C))
     rep.use_units(us)
@@ -386,12 +422,13 @@ def run(rep, tier):
     atomicity(rep, u, us[tp.TP_C])
     recv_guards(rep, u)
     running_predicate(rep, us[tp.TP_C])
+    rep.floor("TLS identity stores", tls_identity(rep, us[tp.TP_C]), 1)
     return driver.finish(
         rep, "other",
         "Static analysis of threadpool_msg_sys.c. Decided: all %d acyclic paths of tpt_msg_send fall into the seven "
         "documented outcome classes with the stated (return, direct-call count) - so at most one direct call, none on a "
         "failure return, each only under its flag; packet atomicity preconditions; dispatch only of verified packets with "
-        "non-NULL callback, once per packet; checksum symmetry. NOT decided: exactly-once / in-order / right-thread "
+        "non-NULL callback, once per packet; checksum symmetry; the TLS thread identity is cleared on every exit of the thread procedure. NOT decided: exactly-once / in-order / right-thread "
         "delivery under concurrent senders and queue-full conditions (kernel pipe semantics and interleavings)." % n,
         ["POSIX: a write of <= PIPE_BUF bytes to a pipe is atomic", "path enumeration may contain infeasible paths; they must still be classifiable"],
         TRUSTED)
